@@ -174,6 +174,8 @@ class Discharger:
             ar = tuple_arities(t, ("notnone", u(val)) in facts)
             if ar == {n}:
                 return "value is a tuple of arity %d on every path" % n
+            if isinstance(val, ast.Call) and u(val.func) == "divmod" and n == 2:
+                return "divmod returns a pair"
             # m.groups() of a folded pattern
             if isinstance(val, ast.Call) and isinstance(val.func, ast.Attribute) and val.func.attr == "groups":
                 g = self._pattern_groups(info, val.func.value)
